@@ -21,7 +21,10 @@ RULE = ("lattice_lib.project_by_dykstra on random valid configurations: every fa
         "nearest feasible kernel) than the input was (the proved Fejer-type bound); and (testing, named as such) "
         "for the six families whose limit must be the nearest point, the result of 300 sweeps is compared with the "
         "exact Euclidean projection computed independently (NNLS on the dual) and re-projecting it must not move "
-        "it. Non-trivial = projection changed the kernel; distinct = distinct (config, kernel).")
+        "it. The same test for the PWL calibrator (monotonicity +1/-1 with BOUND / CLAMPED bounds, no convexity): "
+        "project_all_constraints with 300 iterations against the exact projection onto the feasible columns "
+        "(least-distance programming via NNLS, constraints written on every keypoint output). "
+        "Non-trivial = projection changed the kernel; distinct = distinct (config, kernel).")
 TRUSTED = ["model: Model/LatticeDykstra.v (hand-written from lattice_lib.project_by_dykstra and the eight "
            "_project_partial_* functions) and Model/PWLProject.v",
            "convergence of Dykstra's iterates (Boyle-Dykstra 1986) is cited, not proved; its consequence is "
@@ -143,7 +146,89 @@ def gen_descs(ctx):
         break
     out.append(dict(kind="converge", cfg=cfg, w=latgen.gen_kernel(rng, cfg, rng.choice(["random", "far", "ties"])),
                     iters=300))
+  # PWL nearest-point tests (implementation only): monotonicity +1/-1 with bounds (BOUND / CLAMPED), no convexity,
+  # trials batched across the units axis
+  for _ in range(ctx.n(8, 150)):
+    out.append(gen_pwl_nearest(rng))
   return out
+
+
+def gen_pwl_nearest(rng):
+  mono = rng.choice([-1, 1])
+  nk = rng.randint(2, 7)
+  lengths = [rng.choice([0.5, 1.0, 1.0, 2.0]) for _ in range(nk - 1)]
+  bmode = rng.choice(["min", "max", "both", "both", "both"])
+  a = tfimpl.dy(rng, -4, 4)
+  omin = a if bmode in ("min", "both") else None
+  omax = a + rng.choice([0.5, 1.0, 4.0, 8.0]) if bmode in ("max", "both") else None
+  omin, omax = tfimpl.zero_bound(rng, omin, omax)
+  clamp_min = bool(omin is not None and rng.random() < 0.3)
+  clamp_max = bool(omax is not None and rng.random() < 0.3)
+  units = rng.choice([1, 2, 3])
+  klass = rng.choice(["random", "random", "far", "wrongsign", "near"])
+  W = []
+  for r in range(nk):
+    row = []
+    for _ in range(units):
+      if klass == "far":
+        v = tfimpl.dy(rng, -32, 32) if r == 0 else tfimpl.dy(rng, -16, 16)
+      elif klass == "wrongsign":
+        v = tfimpl.dy(rng) if r == 0 else -abs(tfimpl.dy(rng)) * mono
+      elif klass == "near":
+        v = (omin if omin is not None else omax) if r == 0 else mono * tfimpl.dy(rng, -1, 2)
+      else:
+        v = tfimpl.dy(rng)
+      row.append(v)
+    W.append(row)
+  return dict(kind="pwlnearest", mono=mono, lengths=lengths, omin=omin, omax=omax, clamp_min=clamp_min,
+              clamp_max=clamp_max, units=units, W=W, wclass=klass, iters=300)
+
+
+def pwl_constraint_rows(d):
+  """Rows (g, h) meaning g . x >= h of the feasible set of a monotone bounded PWL column x = (bias, heights): sign of
+  every height, EVERY keypoint output (cumulative sum) within the bounds, clamped ends as two inequalities."""
+  n = len(d["lengths"]) + 1
+  G, H = [], []
+  for i in range(1, n):
+    g = np.zeros(n)
+    g[i] = d["mono"]
+    G.append(g)
+    H.append(0.0)
+  for k in range(n):
+    c = np.zeros(n)
+    c[:k + 1] = 1.0
+    if d["omin"] is not None:
+      G.append(c)
+      H.append(d["omin"])
+    if d["omax"] is not None:
+      G.append(-c)
+      H.append(-d["omax"])
+  first, last = np.zeros(n), np.ones(n)
+  first[0] = 1.0
+  lo_end, hi_end = (first, last) if d["mono"] == 1 else (last, first)
+  if d["clamp_min"]:
+    G.append(-lo_end)
+    H.append(-d["omin"])
+  if d["clamp_max"]:
+    G.append(hi_end)
+    H.append(d["omax"])
+  return np.array(G), np.array(H)
+
+
+def nearest_affine(w, G, H):
+  """Euclidean projection of w onto {x : G x >= H} (Lawson-Hanson least-distance programming via NNLS); None when
+  the set is empty."""
+  from scipy.optimize import nnls  # pylint: disable=g-import-not-at-top
+  w = np.asarray(w, dtype=np.float64)
+  h = H - G @ w
+  E = np.vstack([G.T, h[None, :]])
+  f = np.zeros(E.shape[0])
+  f[-1] = 1.0
+  u, _ = nnls(E, f, maxiter=50 * E.shape[1] + 1000)
+  r = E @ u - f
+  if abs(r[-1]) < 1e-12:
+    return None
+  return w - r[:-1] / r[-1]
 
 
 def focus(ctx, desc):
@@ -182,6 +267,43 @@ def flat(m):
   return [float(x) for row in np.asarray(m) for x in row]
 
 
+def eval_pwl_nearest(tf, tfl, d):
+  """project_all_constraints with 300 iterations against the exact Euclidean projection onto the feasible columns
+  (the limit claimed by the property; the model-level statement is C08_pwl_fixpoint_nearest)."""
+  plib = tfl.pwl_calibration_lib
+  W = np.array(d["W"], dtype=np.float64)
+  scale = max(1.0, float(np.abs(W).max()))
+  _, _, cmin, cmax = plib.convert_all_constraints(d["omin"], d["omax"], d["clamp_min"], d["clamp_max"])
+  kw = dict(monotonicity=d["mono"], output_min=d["omin"], output_max=d["omax"], output_min_constraints=cmin,
+            output_max_constraints=cmax, convexity=0, lengths=tf.constant(d["lengths"], dtype=tf.float64),
+            num_projection_iterations=d["iters"])
+  R = plib.project_all_constraints(weights=tf.constant(W), **kw).numpy()
+  fails = []
+  dist = viol = 0.0
+  if not np.all(np.isfinite(R)):
+    fails.append("PWL: non-finite kernel returned")
+  else:
+    G, H = pwl_constraint_rows(d)
+    for u in range(W.shape[1]):
+      target = nearest_affine(W[:, u], G, H)
+      if target is None or float((G @ target - H).min()) < -1e-7 * scale:
+        continue  # empty feasible set or solver failure: nothing to compare with
+      dist = max(dist, float(np.abs(R[:, u] - target).max()))
+      viol = max(viol, float((H - G @ R[:, u]).max()))
+    if viol > 1e-3 * scale:
+      fails.append("PWL: after 300 iterations the largest violation is still %r" % viol)
+    if dist > 2e-3 * scale:
+      fails.append("PWL: after 300 iterations the result is %r away from the Euclidean-nearest feasible kernel" % dist)
+    again = plib.project_all_constraints(weights=tf.constant(R), **kw).numpy()
+    if np.abs(again - R).max() > 2e-3 * scale:
+      fails.append("PWL: re-projecting the converged result moves it by %r" % np.abs(again - R).max())
+  klass = "pwlnearest_m%d_%s%s%s" % (d["mono"], "b" if d["omin"] is not None else "", "B" if d["omax"] is not None else "",
+                                     "_cl" if d["clamp_min"] or d["clamp_max"] else "")
+  return Case(d, coq=None, pred_fail="; ".join(fails) if fails else None,
+              nontrivial=bool(np.abs(R - W).max() > 1e-12), klass=klass,
+              info={"distance_to_nearest": dist, "violation": viol})
+
+
 def eval_cases(ctx, descs):
   tf, tfl = tfimpl.tfl()
   lib = tfl.lattice_lib
@@ -196,6 +318,9 @@ def eval_cases(ctx, descs):
         fail = "; ".join("PWL " + x for x in cl) or None
       cases.append(Case(d, coq=c.coq.replace("CProj", "CPwl", 1), pred_fail=fail, nontrivial=c.nontrivial,
                         klass="pwl_" + c.klass))
+      continue
+    if d["kind"] == "pwlnearest":
+      cases.append(eval_pwl_nearest(tf, tfl, d))
       continue
     cfg = d["cfg"]
     W = np.array(d["w"], dtype=np.float64)
